@@ -275,6 +275,21 @@ func (w *World) StartAgent() error {
 		return err
 	}
 
+	// an agent that could not bind its HTTP port (taken by a parallel run in the meantime) is started again on
+	// another port: a start-up failure of the harness' making, not an observation
+	for try := 0; try < 5; try++ {
+		time.Sleep(25 * time.Millisecond)
+
+		if w.Agent.Alive() || !strings.Contains(w.Agent.Stderr(), "http server failed") {
+			break
+		}
+
+		w.Agent, err = agent.Start(w.AgentBin, w.Dir, w.Cfg)
+		if err != nil {
+			return err
+		}
+	}
+
 	w.Died = false
 
 	go func(a *agent.Agent) {
